@@ -21,6 +21,38 @@ from traits.observation._trait_added_observer import TraitAddedObserver
 from traits.observation._trait_event_notifier import TraitEventNotifier
 
 
+class _ListedTraitFilter:
+    """ ``match_func`` of the ``TraitAddedObserver`` contributed by a
+    ``FilteredTraitObserver``: the observer's filter, restricted to the
+    traits ``HasTraits.traits()`` lists.
+
+    ``add_trait`` with a List, Dict or Set trait also adds (and announces) a
+    companion ``"<name>_items"`` event trait, which ``traits()`` -- and
+    therefore ``FilteredTraitObserver.iter_observables`` -- leaves out. It must
+    not be hooked when it is added either, or the notifier could not be found
+    again for removal.
+
+    Parameters
+    ----------
+    filter : callable(str, CTrait) -> boolean
+        The filter of the observer. Used for equality and hashing.
+    """
+
+    __slots__ = ("filter",)
+
+    def __init__(self, filter):
+        self.filter = filter
+
+    def __call__(self, name, trait):
+        return name[-6:] != "_items" and self.filter(name, trait)
+
+    def __eq__(self, other):
+        return type(self) is type(other) and self.filter == other.filter
+
+    def __hash__(self):
+        return hash((type(self).__name__, self.filter))
+
+
 @IObserver.register
 class FilteredTraitObserver:
     """ An observer for observing traits using a custom filter.
@@ -176,7 +208,7 @@ class FilteredTraitObserver:
         """
         yield ObserverGraph(
             node=TraitAddedObserver(
-                match_func=self.filter,
+                match_func=_ListedTraitFilter(self.filter),
                 optional=False,
             ),
             children=[graph],
